@@ -167,15 +167,28 @@ fn cps_of(s: &str) -> String {
 fn run(req: &str) -> String {
     let p: Vec<&str> = req.split(' ').collect();
     let ["emb", api, segs] = p.as_slice() else { return "bad-request".into() };
-    let mut parsed: Vec<(String, String)> = vec![];
+    // (api, page, font, text); `mix`: every segment carries `<t|g><page>@` in front of the font
+    let mut full: Vec<(char, usize, String, String)> = vec![];
     for seg in segs.split('/') {
-        let Some((f, cps)) = seg.split_once(':') else { return "bad-request".into() };
+        let (a, pg, rest) = if *api == "mix" {
+            let Some((pre, rest)) = seg.split_once('@') else { return "bad-request".into() };
+            let mut ch = pre.chars();
+            let (Some(a), Some(d)) = (ch.next(), ch.next().and_then(|c| c.to_digit(10))) else { return "bad-request".into() };
+            if a != 't' && a != 'g' {
+                return "bad-request".into();
+            }
+            (a, d as usize, rest)
+        } else {
+            (if *api == "text" { 't' } else if *api == "gfx" { 'g' } else { return "bad-request".into() }, 0usize, seg)
+        };
+        let Some((f, cps)) = rest.split_once(':') else { return "bad-request".into() };
         let text: Option<String> = cps.split('.').map(|t| u32::from_str_radix(t, 16).ok().and_then(char::from_u32)).collect();
         let Some(text) = text else { return "bad-request".into() };
-        parsed.push((f.to_string(), text));
+        full.push((a, pg, f.to_string(), text));
     }
+    let parsed: Vec<(String, String)> = full.iter().map(|(_, _, f, t)| (f.clone(), t.clone())).collect();
+    let npages = full.iter().map(|x| x.1).max().unwrap_or(0) + 1;
     let mut doc = Document::new();
-    let mut page = Page::a4();
     let mut facts = vec![];
     let used_fonts: BTreeSet<String> = parsed.iter().map(|(f, _)| f.clone()).collect();
     for f in &used_fonts {
@@ -198,21 +211,24 @@ fn run(req: &str) -> String {
             return format!("err:add-font:{}", e).chars().take(60).collect();
         }
     }
-    for (i, (f, t)) in parsed.iter().enumerate() {
-        let y = 760.0 - 16.0 * i as f64;
-        let r = match *api {
-            "text" => page.text().set_font(Font::Custom(f.clone()), 12.0).at(50.0, y).write(t).map(|_| ()),
-            "gfx" => {
-                page.graphics().set_custom_font(f, 12.0);
-                page.graphics().draw_text(t, 50.0, y).map(|_| ())
+    for pg in 0..npages {
+        let mut page = Page::a4();
+        // calls are made in request order; every segment of a page gets its own line
+        for (i, (a, _, f, t)) in full.iter().filter(|x| x.1 == pg).enumerate() {
+            let y = 760.0 - 16.0 * i as f64;
+            let r = match a {
+                't' => page.text().set_font(Font::Custom(f.clone()), 12.0).at(50.0, y).write(t).map(|_| ()),
+                _ => {
+                    page.graphics().set_custom_font(f, 12.0);
+                    page.graphics().draw_text(t, 50.0, y).map(|_| ())
+                }
+            };
+            if r.is_err() {
+                return "err:draw".into();
             }
-            _ => return "bad-request".into(),
-        };
-        if r.is_err() {
-            return "err:draw".into();
         }
+        doc.add_page(page);
     }
-    doc.add_page(page);
     let cfg = WriterConfig { use_xref_streams: false, use_object_streams: false, compress_streams: false, ..WriterConfig::default() };
     let bytes = match doc.to_bytes_with_config(cfg) {
         Ok(b) => b,
@@ -221,10 +237,14 @@ fn run(req: &str) -> String {
     let lib = match PdfReader::new(Cursor::new(bytes.clone())) {
         Ok(r) => {
             let d = PdfDocument::new(r);
-            match TextExtractor::new().extract_from_page(&d, 0) {
-                Ok(t) => cps_of(&t.text),
-                Err(_) => "err:extract".into(),
+            let mut per = vec![];
+            for pg in 0..npages {
+                per.push(match TextExtractor::new().extract_from_page(&d, pg as u32) {
+                    Ok(t) => cps_of(&t.text),
+                    Err(_) => "err:extract".into(),
+                });
             }
+            per.join("/")
         }
         Err(_) => "err:open".into(),
     };
@@ -259,10 +279,13 @@ fn run(req: &str) -> String {
         from = k + 4;
     }
     ws.sort();
+    // shown strings of every content stream (streams holding `BT` and `Tf`), in file order
     let mut shows: Vec<String> = vec![];
-    if let Some(bt) = find(&bytes, b"\nBT\n", 0) {
-        if let (Some(s), Some(e)) = (rfind(&bytes, b"stream\n", bt), find(&bytes, b"endstream", bt)) {
-            let cs = &bytes[s + 7..e];
+    from = 0;
+    while let Some(st) = find(&bytes, b"stream\n", from) {
+        let Some(e) = find(&bytes, b"endstream", st) else { break };
+        let cs = &bytes[st + 7..e];
+        if find(cs, b"BT\n", 0).is_some() && find(cs, b" Tf\n", 0).is_some() && find(cs, b"begincmap", 0).is_none() {
             let mut p = 0;
             while let Some(k) = find(cs, b"> Tj", p) {
                 if let Some(o) = rfind(cs, b"<", k) {
@@ -271,6 +294,7 @@ fn run(req: &str) -> String {
                 p = k + 4;
             }
         }
+        from = e + 9;
     }
     let hl = |v: &Vec<Vec<u8>>| if v.is_empty() { "-".to_string() } else { v.iter().map(|b| hex(b)).collect::<Vec<_>>().join(",") };
     format!(
@@ -391,6 +415,66 @@ fn gen(rng: &mut Rng, tier: Tier) -> Vec<Case> {
                 v.push(Case::new(format!("emb {} {}:{}", api, f, fmt(&mix)), format!("{} {} astral mixed nt", f, api)));
             }
         }
+    }
+    // the SAME font through the graphics context and through Page::text(): the document's used
+    // characters of the font are the UNION over both contexts and over all pages
+    for (f, rep) in &reps {
+        let bmp: Vec<u32> = rep.iter().copied().filter(|c| *c <= 0xFFFF && *c > 0x7E).collect();
+        if bmp.len() < 40 {
+            continue;
+        }
+        let a: Vec<u32> = (0..8).map(|_| *rng.pick(&bmp[..bmp.len() / 2])).collect(); // first half of the repertoire
+        let b: Vec<u32> = (0..8).map(|_| *rng.pick(&bmp[bmp.len() / 2..])).collect(); // second half: disjoint from `a`
+        let ascii = [0x70u32, 0x72, 0x69, 0x63, 0x65, 0x20, 0x31, 0x32, 0x33, 0x34];
+        let mut ov = a.clone();
+        ov.extend_from_slice(&b[..3]); // overlaps `b`
+        let shapes: Vec<(String, &str)> = vec![
+            (format!("g0@{f}:{}/t0@{f}:{}", fmt(&ascii), fmt(&b)), "same-page gfx-then-text disjoint"),
+            (format!("t0@{f}:{}/g0@{f}:{}", fmt(&b), fmt(&ascii)), "same-page text-then-gfx disjoint"),
+            (format!("g0@{f}:{}/t0@{f}:{}", fmt(&a), fmt(&b)), "same-page disjoint non-ascii"),
+            (format!("g0@{f}:{}/t0@{f}:{}", fmt(&ov), fmt(&b)), "same-page overlapping"),
+            (format!("t0@{f}:{}/g0@{f}:{}/t0@{f}:{}", fmt(&a), fmt(&ascii), fmt(&b)), "same-page text-gfx-text"),
+            (format!("g0@{f}:{}/t1@{f}:{}", fmt(&ascii), fmt(&b)), "two-pages gfx|text"),
+            (format!("t0@{f}:{}/g1@{f}:{}", fmt(&b), fmt(&a)), "two-pages text|gfx"),
+            (format!("g0@{f}:{}/t0@{f}:{}/g1@{f}:{}/t1@{f}:{}", fmt(&ascii), fmt(&a), fmt(&a), fmt(&b)), "two-pages both-on-both"),
+        ];
+        for (i, (r, tag)) in shapes.into_iter().enumerate() {
+            if thorough || i < 4 || rng.chance(1, 2) {
+                v.push(Case::new(format!("emb mix {}", r), format!("{} mix {} nt", f, tag)));
+            }
+        }
+    }
+    let nmix = if thorough { 150 } else { 24 };
+    let names0: Vec<&str> = reps.keys().copied().collect();
+    for _ in 0..nmix {
+        if names0.is_empty() {
+            break;
+        }
+        let main = *rng.pick(&names0);
+        let nseg = rng.range(2, 4) as usize;
+        let two_pages = rng.chance(1, 3);
+        let mut segs = vec![];
+        for _ in 0..nseg {
+            let f = if rng.chance(4, 5) { main } else { *rng.pick(&names0) };
+            let rep: Vec<u32> = reps[f].iter().copied().filter(|c| *c <= 0xFFFF).collect();
+            let len = rng.range(1, 10) as usize;
+            let mut cps: Vec<u32> = (0..len).map(|_| *rng.pick(&rep)).collect();
+            while matches!(cps.last(), Some(&0x2D) | Some(&0x2010) | Some(&0x2011) | Some(&0x2012) | Some(&0x2013)) {
+                cps.pop();
+            }
+            if cps.is_empty() {
+                cps.push(0x41);
+            }
+            let a = if rng.chance(1, 2) { 't' } else { 'g' };
+            let pg = if two_pages { rng.below(2) } else { 0 };
+            segs.push(format!("{}{}@{}:{}", a, pg, f, fmt(&cps)));
+        }
+        // page numbers must start at 0 without a gap
+        if two_pages && !segs.iter().any(|s| s.as_bytes()[1] == b'0') {
+            let s0 = segs[0].clone();
+            segs[0] = format!("{}0{}", &s0[..1], &s0[2..]);
+        }
+        v.push(Case::new(format!("emb mix {}", segs.join("/")), format!("random mix segs={} pages={} nt", nseg, if two_pages { 2 } else { 1 })));
     }
     // random strings: 1-3 segments, one or two fonts on the page, repeats
     let n = if thorough { 400 } else { 60 };
